@@ -21,13 +21,27 @@ import (
 
 var bytesRe = regexp.MustCompile(`(\d+) bytes`)
 
-func stringSize(s string) (int, bool) {
+// stringSize finds the size String() prints as "<n> bytes". Where the size
+// stands in the rendering is the library's choice (and a rendering may mention
+// other byte counts): the rendering states the size `want` if ANY "<n> bytes"
+// in it does; otherwise the last one is returned for the report.
+func stringSize(s string, want int) (int, bool) {
 	m := bytesRe.FindAllStringSubmatch(s, -1)
 	if len(m) == 0 {
 		return 0, false
 	}
-	n, err := strconv.Atoi(m[len(m)-1][1])
-	return n, err == nil
+	last := 0
+	for _, x := range m {
+		n, err := strconv.Atoi(x[1])
+		if err != nil {
+			continue
+		}
+		if n == want {
+			return n, true
+		}
+		last = n
+	}
+	return last, true
 }
 
 // c10SizeSweep: the runs reserved for it walk through EVERY payload length of a
@@ -69,7 +83,7 @@ func c10SizeSweep(c *sim.Ctx) *sim.Violation {
 			}
 			var str string
 			sim.Guard(func() { str = p.String() })
-			if sz, ok := stringSize(str); !ok || sz != len(w.Buf) {
+			if sz, ok := stringSize(str, len(w.Buf)); !ok || sz != len(w.Buf) {
 				return sim.V("C10/"+typ+"/String-size", "%s with %d payload/auth-data bytes: String() = %q, frame is %d bytes", typ, n, str, len(w.Buf))
 			}
 		}
@@ -143,7 +157,7 @@ func c10Limit(c *sim.Ctx, rl int) *sim.Violation {
 	}
 	var str string
 	sim.Guard(func() { str = p.String() })
-	if sz, ok := stringSize(str); !ok || sz != w.n {
+	if sz, ok := stringSize(str, w.n); !ok || sz != w.n {
 		return sim.V("C10/PUBLISH/limit/String-size", "%s\nString() = %q", what, str)
 	}
 	c.Count(fmt.Sprintf("probe.remaining-length-at-or-beyond-the-limit(over=%v)", over))
@@ -277,7 +291,7 @@ func runC10(c *sim.Ctx) *sim.Violation {
 	if pi := sim.Guard(func() { str = p.String() }); pi != nil {
 		return sim.V("C10/"+typ+"/String-panic:"+pi.Site, "String() panicked: %s", pi.Value)
 	}
-	if sz, ok := stringSize(str); !ok || sz != len(B) {
+	if sz, ok := stringSize(str, len(B)); !ok || sz != len(B) {
 		return sim.V("C10/"+typ+"/String-size", "%s\nString() = %q prints %d bytes", desc(), str, sz)
 	}
 	c.Count(fmt.Sprintf("probe.remaining-length-%d-byte-form", gen.SizeClass(len(B))))
@@ -360,7 +374,7 @@ var C10 = &sim.Scenario{
 		"distinct_nontrivial counts distinct (type, malformation, property count, frame length).",
 	Assumptions: []string{
 		"the frame size is computed by the stub from the bytes the link received (1 + remaining-length width + remaining length), not from the library",
-		"String() size is the last '<n> bytes' in the rendering; generated strings contain no spaces so they cannot imitate it",
+		"String() states the size if any '<n> bytes' in the rendering equals it (where it stands is the library's choice); generated strings contain no spaces so they cannot imitate it",
 		"the number of Write calls per frame is not constrained (the property speaks of bytes), except that Undefined must make none",
 	},
 	Components: components,
